@@ -223,9 +223,18 @@ def write_evidence(prop, pinfo, results, tier, seed, wall, failures, new_fail, l
         asm = getattr(r, 'asm', None)
         if not asm:
             continue
+        cur_tag = None
+        buf = []
         for l, m in zip(asm.lines, asm.meta):
-            if m.get('tag') and prop in (m.get('props') or []) and len(samples) < 6 and '//#' in l:
-                samples.append({'function': m['item'], 'clause': l.strip()})
+            if m.get('tag') and prop in (m.get('props') or []) and not m['tag'].split('.')[-1].startswith('aux'):
+                if m['tag'] != cur_tag:
+                    cur_tag = m['tag']
+                    buf = []
+                buf.append(l.strip())
+                if '//#' in l and len(samples) < 8:
+                    samples.append({'function': m['item'], 'obligation': cur_tag, 'clause': ' '.join(buf)})
+            else:
+                cur_tag = None
     if not samples:
         samples = [{'note': 'no clause text available (unit did not assemble)'}]
     ev = {
